@@ -365,6 +365,7 @@ def decomposition_obligations(tier):
                 variants.append(("init=tuple,normalize_factors", dict(form="tuple", normalize=True)))
             if has_mask:
                 variants.append(("init=tuple,mask", dict(form="tuple", mask=True)))
+                variants.append(("init=tuple,mask,tol=0,no error reporting", dict(form="tuple", mask=True, quiet=True)))
             if "hals" in fn:
                 variants.append(("init=tuple,sparsity_coefficients list,fixed_modes=[1]", dict(form="tuple", sparsity=True, fixed=[1])))
             for tag, v in variants:
@@ -374,6 +375,8 @@ def decomposition_obligations(tier):
                     if v["form"] == "CPTensor":
                         init = CPTensor(init)
                     kwargs = dict(init=init, return_errors=True, **extra)
+                    if v.get("quiet"):
+                        kwargs.update(return_errors=False, tol=0)
                     if v.get("fixed") is not None:
                         kwargs["fixed_modes"] = list(v["fixed"])
                     if v.get("normalize"):
